@@ -807,7 +807,13 @@ def semantic_key(p):
 def norm_row(row):
     """Row as a comparable text: floats to 12 significant digits and -0.0 as 0.0 - the library writes a*(b*c) as a*b*c, which
     is the same number up to the last bit and the sign of a zero."""
-    return repr(tuple((float("%.12g" % v) + 0.0) if isinstance(v, float) else v for v in row))
+    def one(v):
+        if isinstance(v, float):
+            v = float("%.12g" % v) + 0.0
+            # (a column with INTEGER affinity stores 20.0 as 20 but keeps 20.000000000000004 as a float: compare integral values as integers)
+            return int(v) if v == int(v) and abs(v) < 2 ** 53 else v
+        return v
+    return repr(tuple(one(v) for v in row))
 
 
 def run_case(case, mon):
